@@ -75,8 +75,9 @@ type Op struct {
 	Lo int64 `json:"lo,omitempty"` // strrange: String() for every value in [Lo, Hi]
 	Hi int64 `json:"hi,omitempty"`
 
-	Keep bool `json:"k,omitempty"`  // retain the returned value and re-emit its digest at keepdump
-	Spin int  `json:"sp,omitempty"` // conc mode: busy iterations before the call (start jitter)
+	Keep bool `json:"k,omitempty"`   // retain the returned value and re-emit its digest at keepdump
+	Spin int  `json:"sp,omitempty"`  // conc mode: busy iterations before the call (start jitter)
+	Rep  int  `json:"rep,omitempty"` // >1: the call is made Rep times in a row; the first result is reported and, in Info, the first repetition whose result differs
 }
 
 // Arg helpers -------------------------------------------------------------
